@@ -85,6 +85,8 @@ def _rewrite(text, v, counts):
 
 def prepare(variant):
     """Returns dict(dir=<workspace dir>, target_dir=..., env=..., expect=...)."""
+    if variant == "kloom":
+        return prepare_loom()
     v = VARIANTS[variant]
     os.makedirs(SCRATCH_ROOT, exist_ok=True)
     lock = open(os.path.join(SCRATCH_ROOT, variant + ".lock"), "w")
@@ -159,6 +161,82 @@ def prepare(variant):
         "rewrites": counts,
         "_lock": lock,
     }
+
+
+LOOM_RULES = [
+    (r'\b(core|std)::sync::atomic\b', 'loom::sync::atomic'),
+    (r'\b(core|std)::hint::spin_loop\b', 'loom::thread::yield_now'),
+    (r'\bstd::thread::yield_now\b', 'loom::thread::yield_now'),
+    (r'\bstd::sync::(Mutex|RwLock|Condvar|Arc)\b', r'loom::sync::\1'),
+]
+LOOM_STATIC = re.compile(r'^(\s*)(pub(?:\([a-z]+\))? )?static (\w+): (Atomic\w+(?:<[^>]*>)?) = ([^;]*);\s*$')
+
+
+def prepare_loom():
+    """A scratch copy of /repo/src in which every atomic / spin / std::sync
+    primitive resolves to its loom counterpart, so that synchronisation a
+    change introduces anywhere in the crate is visible to the model checker
+    (hook H4 covers the dispatch cells; this covers everything else)."""
+    variant = "kloom"
+    os.makedirs(SCRATCH_ROOT, exist_ok=True)
+    lock = open(os.path.join(SCRATCH_ROOT, variant + ".lock"), "w")
+    fcntl.flock(lock, fcntl.LOCK_EX)
+    root = os.path.join(SCRATCH_ROOT, variant)
+    src = os.path.join(root, "memchr", "src")
+    counts = {"rewritten_lines": 0, "statics": 0}
+    want = {}
+    for dp, _, fs in os.walk("/repo/src"):
+        for f in fs:
+            if f.endswith(".rs"):
+                p = os.path.join(dp, f)
+                want[os.path.relpath(p, "/repo/src")] = p
+    os.makedirs(src, exist_ok=True)
+    have = set()
+    for dp, _, fs in os.walk(src):
+        for f in fs:
+            have.add(os.path.relpath(os.path.join(dp, f), src))
+    for rel in have - set(want):
+        os.remove(os.path.join(src, rel))
+    for rel, p in want.items():
+        out = []
+        prev = ""
+        for line in open(p).read().split("\n"):
+            new = line
+            hook = "VERIF_DETECT_RUNS" in line or ("VERIF_DETECT_RUNS" in prev and prev.rstrip().endswith("="))
+            prev = line
+            if not hook and "loom::" not in line and not line.lstrip().startswith("//"):
+                for pat, rep in LOOM_RULES:
+                    new = re.sub(pat, rep, new)
+                m = LOOM_STATIC.match(new)
+                if m:
+                    new = "%sloom::lazy_static! { %sstatic ref %s: %s = %s; }" % (m.group(1), m.group(2) or "", m.group(3), m.group(4), m.group(5))
+                    counts["statics"] += 1
+            if new != line:
+                counts["rewritten_lines"] += 1
+            out.append(new)
+        text = "\n".join(out)
+        dst = os.path.join(src, rel)
+        os.makedirs(os.path.dirname(dst), exist_ok=True)
+        if not os.path.exists(dst) or open(dst).read() != text:
+            open(dst, "w").write(text)
+        st = os.stat(p)
+        os.utime(dst, (st.st_atime, st.st_mtime))
+    files = {
+        os.path.join(root, "Cargo.toml"): PROFILE.replace('members = ["memchr", "checks"]', 'members = ["memchr", "loomcheck"]').replace("[profile.release.package.stateright]", "[profile.release.package.loom]"),
+        os.path.join(root, "memchr", "Cargo.toml"): '[package]\nname = "memchr-copy"\nversion = "0.0.0"\nedition = "2021"\n\n[lib]\nname = "memchr"\npath = "src/lib.rs"\ndoctest = false\ntest = false\n\n[features]\ndefault = ["std"]\nstd = ["alloc"]\nalloc = []\nlogging = []\n\n[dependencies]\nloom = "0.7"\n\n[lints.rust]\nunexpected_cfgs = { level = "allow" }\n',
+        os.path.join(root, "loomcheck", "Cargo.toml"): '[package]\nname = "loomcheck-copy"\nversion = "0.0.0"\nedition = "2021"\n\n[dependencies]\nmemchr = { package = "memchr-copy", path = "../memchr" }\nmcore = { path = "%s/mcore" }\nloom = "0.7"\nserde_json = "1"\n\n[[bin]]\nname = "loomcheck"\npath = "%s/loomcheck/src/main.rs"\n\n[lints.rust]\nunexpected_cfgs = { level = "allow" }\n' % (HARNESS, HARNESS),
+        os.path.join(root, ".cargo", "config.toml"): "[net]\noffline = true\n\n[build]\nrustflags = ['--cfg', 'memchr_verif', '--cfg', 'memchr_verif=\"loom\"', '--cfg', 'memchr_verif_loomcopy']\n",
+    }
+    st = os.stat(os.path.join(HARNESS, "emul", "verif_emul.rs"))
+    for p, content in files.items():
+        os.makedirs(os.path.dirname(p), exist_ok=True)
+        if not os.path.exists(p) or open(p).read() != content:
+            open(p, "w").write(content)
+        os.utime(p, (st.st_atime, st.st_mtime))
+    lockfile = os.path.join(root, "Cargo.lock")
+    if not os.path.exists(lockfile):
+        shutil.copy(os.path.join(HARNESS, "Cargo.lock"), lockfile)
+    return {"dir": root, "target_dir": os.path.join(HARNESS, "target-arch", variant), "expect": "", "rewrites": counts, "_lock": lock}
 
 
 def cleanup(variant):
